@@ -1,0 +1,138 @@
+//! Verification-only in-memory transport (cfg(datacake_verif)).
+//!
+//! A server created with `Server::verif_in_memory` is registered here under
+//! its address. `Channel::send_parts` consults the registry first and, on a
+//! hit, hands the request to the very same request handling path a TCP
+//! connection would use, after asking an optional policy callback what to do
+//! with the message.
+use std::collections::HashMap;
+use std::future::Future;
+use std::net::SocketAddr;
+use std::pin::Pin;
+use std::sync::Arc;
+
+use http::{HeaderMap, Response};
+use parking_lot::Mutex;
+
+use crate::body::Body;
+use crate::net::Error;
+use crate::server::ServerState;
+
+/// What to do with one request addressed to an in-memory server.
+pub enum Verdict {
+    Deliver,
+    /// Fail as a connection error without running the handler.
+    Drop,
+    /// Run the handler twice; the caller sees the second reply.
+    Duplicate,
+    /// Run the handler, then fail as a connection error (lost reply).
+    DropReply,
+    /// Run the handler, then flip the given bit (modulo length) of the reply body.
+    CorruptReply(usize),
+}
+
+pub struct MsgInfo {
+    pub to: SocketAddr,
+    pub uri: String,
+    pub body: bytes::Bytes,
+}
+
+pub type Policy =
+    Arc<dyn Fn(MsgInfo) -> Pin<Box<dyn Future<Output = Verdict> + Send>> + Send + Sync>;
+
+struct Entry {
+    state: ServerState,
+    policy: Option<Policy>,
+}
+
+static REGISTRY: Mutex<Option<HashMap<SocketAddr, Entry>>> = Mutex::new(None);
+
+pub(crate) fn register(addr: SocketAddr, state: ServerState) {
+    REGISTRY
+        .lock()
+        .get_or_insert_with(HashMap::new)
+        .insert(addr, Entry { state, policy: None });
+}
+
+/// Removes the in-memory server; later requests take the normal socket path.
+pub fn unregister(addr: SocketAddr) {
+    if let Some(map) = REGISTRY.lock().as_mut() {
+        map.remove(&addr);
+    }
+}
+
+/// Installs (or clears) the policy consulted for every request sent to `addr`.
+pub fn set_policy(addr: SocketAddr, policy: Option<Policy>) {
+    if let Some(e) = REGISTRY.lock().as_mut().and_then(|m| m.get_mut(&addr)) {
+        e.policy = policy;
+    }
+}
+
+pub(crate) fn lookup(addr: SocketAddr) -> Option<(ServerState, Option<Policy>)> {
+    REGISTRY
+        .lock()
+        .as_ref()
+        .and_then(|m| m.get(&addr))
+        .map(|e| (e.state.clone(), e.policy.clone()))
+}
+
+pub(crate) async fn send_in_memory(
+    state: ServerState,
+    policy: Option<Policy>,
+    to: SocketAddr,
+    uri: String,
+    headers: HeaderMap,
+    body: Body,
+) -> Result<Response<hyper::Body>, Error> {
+    let bytes = hyper::body::to_bytes(body.into_inner()).await?;
+    let verdict = match policy {
+        Some(p) => {
+            p(MsgInfo {
+                to,
+                uri: uri.clone(),
+                body: bytes.clone(),
+            })
+            .await
+        },
+        None => Verdict::Deliver,
+    };
+
+    let from = SocketAddr::from(([127, 0, 0, 1], 1));
+    let dropped = || {
+        Error::Io(std::io::Error::new(
+            std::io::ErrorKind::ConnectionReset,
+            "verif: message dropped",
+        ))
+    };
+    let dispatch = |state: ServerState| {
+        super::server::verif_dispatch(
+            state,
+            from,
+            uri.clone(),
+            headers.clone(),
+            bytes.clone().into(),
+        )
+    };
+
+    match verdict {
+        Verdict::Drop => Err(dropped()),
+        Verdict::Deliver => Ok(dispatch(state).await),
+        Verdict::Duplicate => {
+            let _ = dispatch(state.clone()).await;
+            Ok(dispatch(state).await)
+        },
+        Verdict::DropReply => {
+            let _ = dispatch(state).await;
+            Err(dropped())
+        },
+        Verdict::CorruptReply(bit) => {
+            let (parts, body) = dispatch(state).await.into_parts();
+            let mut buf = hyper::body::to_bytes(body).await?.to_vec();
+            if !buf.is_empty() {
+                let bit = bit % (buf.len() * 8);
+                buf[bit / 8] ^= 1 << (bit % 8);
+            }
+            Ok(Response::from_parts(parts, buf.into()))
+        },
+    }
+}
